@@ -1,12 +1,156 @@
-(** C01 - property theorems only. *)
+(** C01 - HTTP routing, route cache off.  Property theorems only: each is closed by
+    [exact] of a lemma proved in proofs/MuxProofs.v.  The oracles ([re_match] = Go
+    regexp.MatchString, [re_replace] = ReplaceAllString, [ip_allow] = IPFilter.Allow)
+    are universally quantified: every theorem holds for all of them. *)
 From EG.lib Require Import Base.
 From EG.model Require Import Mux.
 From EG.proofs Require Import MuxProofs.
 Open Scope string_scope.
 
-Theorem C01_unknown_backend_503 : forall re_match re_replace ip_allow sv rq p,
-  search_nocache re_match ip_allow sv rq = Route p ->
-  str_in (pe_backend p) (sv_backends sv) = false ->
-  serve_nocache re_match re_replace ip_allow sv rq = Failed 503.
-Proof. exact unknown_backend_503. Qed.
+Section C01.
+  Variable re_match : string -> string -> bool.
+  Variable re_replace : string -> string -> string -> string.
+  Variable ip_allow : N -> string -> bool.
+
+  (** the Go loops with the headerMismatch / methodMismatch flags and early 403 returns
+      compute exactly the declarative router: 403 iff an applying IP filter denies the
+      client, otherwise the first full match in rule-then-path order, otherwise
+      400 > 405 > 404 ([search_spec]) *)
+  Theorem C01_loop_refines_spec : forall sv rq,
+    search_nocache re_match ip_allow sv rq =
+    if denied re_match ip_allow sv rq then Status 403 else search_spec re_match sv rq.
+  Proof. exact (loop_refines_spec re_match ip_allow). Qed.
+
+  (** the request is routed to entry [p] iff [p] is the first entry, in configured
+      rule-then-path order, whose host, path, method and header conditions all match:
+      nothing earlier matches fully, nothing later is consulted *)
+  Theorem C01_first_match : forall sv rq p,
+    denied re_match ip_allow sv rq = false ->
+    (search_nocache re_match ip_allow sv rq = Route p <->
+     exists l1 r l2, entries sv = (l1 ++ (r, p) :: l2)%list /\ full_match re_match rq (r, p) = true /\
+                     (forall e, In e l1 -> full_match re_match rq e = false)).
+  Proof. exact (first_match re_match ip_allow). Qed.
+
+  (** no entry matches fully: 400 when some entry (of a host-matching rule) matched path and
+      method (so it failed its header condition), otherwise 405 when some entry matched the
+      path (but not the method), otherwise 404 *)
+  Theorem C01_failure_precedence : forall sv rq,
+    denied re_match ip_allow sv rq = false ->
+    (forall e, In e (entries sv) -> full_match re_match rq e = false) ->
+    search_nocache re_match ip_allow sv rq =
+      Status (if existsb (pm_match re_match rq) (entries sv) then 400
+              else if existsb (p_match re_match rq) (entries sv) then 405 else 404).
+  Proof. exact (failure_precedence re_match ip_allow). Qed.
+
+  (** rewrite: exact path -> target; else prefix -> target ++ rest; else regexp ->
+      ReplaceAllString; empty rewriteTarget -> unchanged *)
+  Theorem C01_rewrite_exact : forall p path,
+    pe_rewrite p <> "" -> pe_path p <> "" -> pe_path p = path ->
+    rewrite re_replace p path = Some (pe_rewrite p).
+  Proof. exact (rewrite_exact re_replace). Qed.
+
+  Theorem C01_rewrite_prefix : forall p path rest,
+    pe_rewrite p <> "" -> (pe_path p = "" \/ pe_path p <> path) ->
+    pe_prefix p <> "" -> path = pe_prefix p ++ rest ->
+    rewrite re_replace p path = Some (pe_rewrite p ++ rest).
+  Proof. exact (rewrite_prefix re_replace). Qed.
+
+  Theorem C01_rewrite_regexp : forall p path,
+    pe_rewrite p <> "" -> (pe_path p = "" \/ pe_path p <> path) ->
+    (pe_prefix p = "" \/ is_prefix (pe_prefix p) path = false) ->
+    pe_regexp p <> "" ->
+    rewrite re_replace p path = Some (re_replace (pe_regexp p) path (pe_rewrite p)).
+  Proof. exact (rewrite_regexp re_replace). Qed.
+
+  Theorem C01_rewrite_none : forall p path,
+    pe_rewrite p = "" -> rewrite re_replace p path = Some path.
+  Proof. exact (rewrite_none re_replace). Qed.
+
+  (** the handler invoked is the backend of the matched entry and it sees the rewritten path *)
+  Theorem C01_dispatch_backend_and_path : forall sv rq p,
+    search_nocache re_match ip_allow sv rq = Route p ->
+    str_in (pe_backend p) (sv_backends sv) = true ->
+    serve_nocache re_match re_replace ip_allow sv rq =
+      match rewrite re_replace p (rq_path rq) with
+      | Some path' => Dispatched (pe_backend p) path'
+      | None => Panicked
+      end.
+  Proof. exact (dispatch_backend_and_path re_match re_replace ip_allow). Qed.
+
+  (** a matched backend name that does not exist yields 503 *)
+  Theorem C01_unknown_backend_503 : forall sv rq p,
+    search_nocache re_match ip_allow sv rq = Route p ->
+    str_in (pe_backend p) (sv_backends sv) = false ->
+    serve_nocache re_match re_replace ip_allow sv rq = Failed 503.
+  Proof. exact (unknown_backend_503 re_match re_replace ip_allow). Qed.
+
+  (** matchAllHeader: conjunction over the conditions (empty value list / empty regexp do not
+      constrain); otherwise disjunction (an empty value list never matches by value) *)
+  Theorem C01_match_all_header_semantics : forall p rq,
+    let v h := hget (hc_key h) (rq_headers rq) in
+    (pe_match_all p = true ->
+       (headers_match re_match p rq = true <->
+        forall h, In h (pe_headers p) ->
+          (hc_values h = [] \/ In (v h) (hc_values h)) /\
+          (hc_regexp h = "" \/ re_match (hc_regexp h) (v h) = true))) /\
+    (pe_match_all p = false ->
+       (headers_match re_match p rq = true <->
+        exists h, In h (pe_headers p) /\
+          (In (v h) (hc_values h) \/ (hc_regexp h <> "" /\ re_match (hc_regexp h) (v h) = true)))).
+  Proof. exact (match_all_header_semantics re_match). Qed.
+
+  (** port ignored: [name:port] is matched against a rule exactly like [name] *)
+  Theorem C01_port_ignored : forall r rq1 rq2 name port,
+    shas ":" name = false -> shas "[" name = false -> shas "]" name = false ->
+    shas ":" port = false -> shas "[" port = false -> shas "]" port = false ->
+    rq_host rq1 = name ++ ":" ++ port -> rq_host rq2 = name ->
+    host_match re_match r rq1 = host_match re_match r rq2.
+  Proof. exact (port_ignored re_match). Qed.
+
+  (** a validated configuration never reaches rewrite's nil-regexp dereference *)
+  Theorem C01_valid_never_panics : forall sv rq,
+    valid_server sv = true -> serve_nocache re_match re_replace ip_allow sv rq <> Panicked.
+  Proof. exact (valid_never_panics re_match re_replace ip_allow). Qed.
+End C01.
+
+Print Assumptions C01_loop_refines_spec.
+Print Assumptions C01_first_match.
+Print Assumptions C01_failure_precedence.
+Print Assumptions C01_rewrite_exact.
+Print Assumptions C01_rewrite_prefix.
+Print Assumptions C01_rewrite_regexp.
+Print Assumptions C01_rewrite_none.
+Print Assumptions C01_dispatch_backend_and_path.
 Print Assumptions C01_unknown_backend_503.
+Print Assumptions C01_match_all_header_semantics.
+Print Assumptions C01_port_ignored.
+Print Assumptions C01_valid_never_panics.
+
+(** non-vacuity: a concrete rule set on which the clauses are exercised:
+    first match skips a header-conditioned entry, 400 / 405 / 404 / 503, prefix and regexp rewrite *)
+Example C01_nonvacuous :
+  let re (p s : string) := String.eqb p "^/r" && is_prefix "/r" s in
+  let rep (p s t : string) := t ++ sdrop 2 s in
+  let ipa (f : N) (ip : string) := negb (N.eqb f 7 && String.eqb ip "10.0.0.8") in
+  let e pth pre rgx ms rw b hs :=
+    {| pe_path := pth; pe_prefix := pre; pe_regexp := rgx; pe_methods := ms; pe_rewrite := rw;
+       pe_backend := b; pe_headers := hs; pe_match_all := false; pe_filter := None |} in
+  let sv := {| sv_filter := Some 7%N;
+               sv_rules := [ {| ru_host := "a.com"; ru_host_re := ""; ru_filter := None;
+                                ru_paths := [ e "/a" "" "" ["GET"] "" "A" [ {| hc_key := "X"; hc_values := ["v1"]; hc_regexp := "" |} ];
+                                              e "/a" "" "" ["GET"] "/new" "B" [];
+                                              e "" "/p/" "" [] "/q/" "C" [];
+                                              e "" "" "^/r" [] "/s" "D" [];
+                                              e "/h" "" "" [] "" "A" [ {| hc_key := "X"; hc_values := ["v1"]; hc_regexp := "" |} ] ] |} ];
+               sv_backends := ["A"; "B"; "C"] |} in
+  let rq h m p hs ip := {| rq_host := h; rq_method := m; rq_path := p; rq_headers := hs; rq_ip := ip |} in
+  valid_server sv = true /\
+  map (serve_nocache re rep ipa sv)
+      [ rq "a.com:80" "GET" "/a" [("X", "v1")] "1.1.1.1"; rq "a.com" "GET" "/a" [] "1.1.1.1";
+        rq "a.com" "PUT" "/p/x" [] "1.1.1.1"; rq "a.com" "GET" "/rr" [] "1.1.1.1";
+        rq "a.com" "GET" "/h" [] "1.1.1.1"; rq "a.com" "POST" "/a" [] "1.1.1.1";
+        rq "a.com" "GET" "/zz" [] "1.1.1.1"; rq "b.com" "GET" "/a" [] "1.1.1.1";
+        rq "a.com" "GET" "/a" [] "10.0.0.8" ]
+  = [ Dispatched "A" "/a"; Dispatched "B" "/new"; Dispatched "C" "/q/x"; Failed 503;
+      Failed 400; Failed 405; Failed 404; Failed 404; Failed 403 ].
+Proof. vm_compute. split; reflexivity. Qed.
